@@ -110,6 +110,7 @@ def community_louvain(W, gamma=1, ci=None, B='modularity', seed=None):
     q : float
         optimized q-statistic (modularity only)
     '''
+    W = np.asarray(W, dtype=float)  # the same network whatever the storage: arithmetic below must not be logical (bool) or wrap (small integers)
     rng = get_rng(seed)
     n = len(W)
     s = np.sum(W)
@@ -838,6 +839,7 @@ def modularity_finetune_und_sign(W, qtype='sta', gamma=1, ci=None, seed=None):
     Ci and Q may vary from run to run, due to heuristics in the
     algorithm. Consequently, it may be worth to compare multiple runs.
     '''
+    W = np.asarray(W, dtype=float)  # the same network whatever the storage: arithmetic below must not be logical (bool) or wrap (small integers)
     rng = get_rng(seed)
 
     n = len(W)  # number of nodes/modules
@@ -1422,6 +1424,7 @@ def modularity_probtune_und_sign(W, qtype='sta', gamma=1, ci=None, p=.45,
     Ci and Q may vary from run to run, due to heuristics in the
     algorithm. Consequently, it may be worth to compare multiple runs.
     '''
+    W = np.asarray(W, dtype=float)  # the same network whatever the storage: arithmetic below must not be logical (bool) or wrap (small integers)
     rng = get_rng(seed)
 
     n = len(W)
@@ -1643,6 +1646,7 @@ def modularity_und_sign(W, ci, qtype='sta'):
     -----
     uses a deterministic algorithm
     '''
+    W = np.asarray(W, dtype=float)  # the same network whatever the storage: arithmetic below must not be logical (bool) or wrap (small integers)
     n = len(W)
     _, ci = np.unique(ci, return_inverse=True)
     ci += 1
